@@ -115,6 +115,25 @@ Apply(st, s, B) ==
                     new1 == IF usesAdd THEN ClrA(new) ELSE new
                 IN IF IIsZero(b) THEN Br(st, "div0")
                    ELSE [st |-> IF usesSub THEN ClrS(new1) ELSE new1, br |-> "ret"]
+         [] s.k = "shra"     -> P1(IShr(Signed(B, V(1), n), s.sh))                        \* arithmetic shift right
+         [] s.k = "mul2"     -> P1(IMul(L(1), L(2)))                                      \* bit.mul / mul_loop: dst[:n] *= src[:n]
+         [] s.k = "inc1b"    ->         \* bit.inc1 dst, carry ("carry is both input and output"): dst += carry, carry = the carry out
+                LET t == IAdd(Low(B, V(1), 1), Low(B, V(2), 1))
+                IN Ret([st EXCEPT !.vals[s.v[1]] = Put(B, V(1), 1, t), !.vals[s.v[2]] = Put(B, V(2), 1, IShr(t, 1))])
+         [] s.k = "add1b"    ->         \* bit.add1 dst, src, carry: dst += src + carry, carry = the carry out   (a full adder)
+                LET t == IAdd(IAdd(Low(B, V(1), 1), Low(B, V(2), 1)), Low(B, V(3), 1))
+                IN Ret([st EXCEPT !.vals[s.v[1]] = Put(B, V(1), 1, t), !.vals[s.v[3]] = Put(B, V(3), 1, IShr(t, 1))])
+         [] s.k = "divb"     ->         \* bit.div n, a, b, q, r: if b==0 do nothing; q = a/b, r = a%b (unsigned)   v = <<a, b, q, r>>
+                LET a == L(1)  b == L(2)
+                IN IF IIsZero(b) THEN Ret(st)
+                   ELSE Ret([st EXCEPT !.vals[s.v[3]] = Put(B, V(3), n, IFloorDiv(a, b)), !.vals[s.v[4]] = Put(B, V(4), n, IMod(a, b))])
+         [] s.k = "idivb"    ->         \* bit.idiv: signed, sign(r) == sign(a) (truncation)
+                LET a == Signed(B, V(1), n)  b == Signed(B, V(2), n)
+                    qf == IFloorDiv(a, b)  rf == IMod(a, b)
+                    qt == IF IIsZero(rf) \/ (a.neg = b.neg) THEN qf ELSE IAdd(qf, IOne)
+                    rt == ISub(a, IMul(qt, b))
+                IN IF IIsZero(b) THEN Ret(st)
+                   ELSE Ret([st EXCEPT !.vals[s.v[3]] = Put(B, V(3), n, qt), !.vals[s.v[4]] = Put(B, V(4), n, rt)])
          [] s.k = "div10"    ->         \* bit.div10: dst = src / 10, src = src % 10   v = <<dst, src>>
                 [st |-> [st EXCEPT !.vals[s.v[1]] = Put(B, V(1), n, IFloorDiv(L(2), NatI(10))),
                                    !.vals[s.v[2]] = Put(B, V(2), n, IMod(L(2), NatI(10)))], br |-> "ret"]
